@@ -224,6 +224,14 @@ def _worker(job):
                 out["unsupported"] = "contract anchor missing in /repo: %s [%s split=%r]" % (msg, unit_cls, split)
             else:
                 raise
+        if eng.escaped:
+            # the real code raised where the contract says it returns: every obligation of this unit that
+            # this split could not establish is reported as failed (the exception is the counterexample)
+            done = {r["name"] for r in ctx.records if r["status"] in ("discharged", "failed")}
+            for name in unit.obligations:
+                if name not in done:
+                    ctx._rec(name, "failed", model={"unexpected_exception": eng.escaped[0], "split": _jsonable(split)},
+                             sample={"unexpected_exception": eng.escaped[:3]})
         out["records"] = compress_records(ctx.records)
         out["paths"] = eng.n_paths
         out["infeasible"] = eng.n_infeasible
